@@ -1416,7 +1416,16 @@ macro_rules! skip_iterator_digits_iter_base {
 
 /// Create impl `ByteIter` block for skip iterator.
 macro_rules! skip_iterator_bytesiter_impl {
-    ($iterator:ident, $mask:ident, $count:ident, $i:ident, $l:ident, $t:ident, $c:ident) => {
+    (
+        $iterator:ident,
+        $radix_cb:ident,
+        $mask:ident,
+        $count:ident,
+        $i:ident,
+        $l:ident,
+        $t:ident,
+        $c:ident
+    ) => {
         unsafe impl<'a: 'b, 'b, const FORMAT: u128> Iter<'a> for $iterator<'a, 'b, FORMAT> {
             skip_iterator_iter_base!(FORMAT, $mask, $count);
         }
@@ -1488,7 +1497,7 @@ macro_rules! skip_iterator_bytesiter_impl {
             #[inline(always)]
             fn is_digit(&self, value: u8) -> bool {
                 let format = NumberFormat::<{ FORMAT }> {};
-                char_is_digit_const(value, format.mantissa_radix())
+                char_is_digit_const(value, format.$radix_cb())
             }
         }
     };
@@ -1502,6 +1511,7 @@ skip_iterator_impl!(IntegerDigitsIterator, mantissa_radix);
 skip_iterator_iterator_impl!(IntegerDigitsIterator);
 skip_iterator_bytesiter_impl!(
     IntegerDigitsIterator,
+    mantissa_radix,
     INTEGER_DIGIT_SEPARATOR_FLAG_MASK,
     integer_count,
     INTEGER_INTERNAL_DIGIT_SEPARATOR,
@@ -1521,6 +1531,7 @@ skip_iterator_impl!(FractionDigitsIterator, mantissa_radix);
 skip_iterator_iterator_impl!(FractionDigitsIterator);
 skip_iterator_bytesiter_impl!(
     FractionDigitsIterator,
+    mantissa_radix,
     FRACTION_DIGIT_SEPARATOR_FLAG_MASK,
     fraction_count,
     FRACTION_INTERNAL_DIGIT_SEPARATOR,
@@ -1540,6 +1551,7 @@ skip_iterator_impl!(ExponentDigitsIterator, exponent_radix);
 skip_iterator_iterator_impl!(ExponentDigitsIterator);
 skip_iterator_bytesiter_impl!(
     ExponentDigitsIterator,
+    exponent_radix,
     EXPONENT_DIGIT_SEPARATOR_FLAG_MASK,
     exponent_count,
     EXPONENT_INTERNAL_DIGIT_SEPARATOR,
